@@ -283,6 +283,140 @@ def concatenate_clauses(ctx):
                       'resources of the iterator being looped)')
 
 
+def concatenate_target_schema(ctx):
+    """TARGET-SCHEMA: the target resource declares exactly the requested fields, each once, and the row phase builds its rows over the
+    same names.  Invariant carried through the package phase: names(target fields) and `needed` partition the keys of `fields`.
+    * needed starts as the keys of `fields`;
+    * in the loop over the fields of a selected resource a path either touches neither, or - under `mapped name in needed` - appends
+      the field to the target schema, names it with the mapped name and removes that name from needed (all three or none);
+    * after the selected resources, every name still needed is appended as a new field;
+    * the stream phase hands the row builder the keys of `fields` again (not what is left of `needed`) and the same mapping."""
+    run, repo = ctx.run, ctx.repo
+    from sa.pathvals import PathValues
+    from sa.pattern import match_expr as _me
+    from sa.normalize import resolve_here
+    run.rule('CATS', 'TARGET-SCHEMA (concatenate): names(target fields) and the still-needed names partition the keys of `fields` on every '
+                     'path of the package phase; every name left is added as a field at the end; the row builder is given all keys of '
+                     '`fields` and the mapping the schema was built with')
+    func0 = repo.func('dataflows.processors.concatenate:concatenate.func')
+    func = ctx.N(func0)
+    fields_p = func0.parent.params[0] if func0.parent is not None else 'fields'
+
+    def is_target_fields(e):
+        return isinstance(e, ast.Subscript) and isinstance(e.slice, ast.Constant) and e.slice.value == 'fields' and \
+            isinstance(e.value, ast.Subscript) and isinstance(e.value.slice, ast.Constant) and e.value.slice.value == 'schema'
+
+    def keys_of_fields(e):
+        return e is not None and any(_me(pt % fields_p, e) is not None for pt in ('list(%s.keys())', 'list(%s)', '[_k for _k in %s]',
+                                                                                  '[_k for _k in %s.keys()]', 'sorted(%s)'))
+    # the field loop: a For whose body appends its own loop variable to the target's field list
+    cands = []
+    for lp in ast.walk(func.node):
+        if isinstance(lp, ast.For) and isinstance(lp.target, ast.Name):
+            inner_loops = [x for x in ast.walk(lp) if isinstance(x, ast.For) and x is not lp]
+            for c in ast.walk(lp):
+                if any(c in list(ast.walk(x)) for x in inner_loops):
+                    continue
+                # any of the three effects of moving a field into the target schema marks the loop
+                hit = isinstance(c, ast.Call) and isinstance(c.func, ast.Attribute) and c.func.attr == 'append' and \
+                    is_target_fields(c.func.value) and c.args and pseudo(c.args[0]) == lp.target.id
+                hit = hit or (isinstance(c, ast.Assign) and isinstance(c.targets[0], ast.Subscript) and
+                              pseudo(c.targets[0].value) == lp.target.id and isinstance(c.targets[0].slice, ast.Constant)
+                              and c.targets[0].slice.value == 'name')
+                if hit:
+                    cands.append(lp)
+    cands = list(dict.fromkeys(cands))
+    if len(cands) != 1:
+        raise AnalysisError('concatenate: the loop that adds the fields of a selected resource to the target schema was not found')
+    fl = cands[0]
+    fv = fl.target.id
+    needed = None
+    n_paths = 0
+    mapping = None
+    for p in Enumerator(where=func.qualname).body_paths(fl):
+        if p.term == RAISE:
+            continue
+        n_paths += 1
+        pv = PathValues(p)
+        calls = [c for o_, c in pv.stmts if isinstance(c, ast.Expr) and isinstance(c.value, ast.Call)]
+        apps = [c.value for c in calls if isinstance(c.value.func, ast.Attribute) and c.value.func.attr == 'append'
+                and is_target_fields(c.value.func.value)]
+        rems = [c.value for c in calls if isinstance(c.value.func, ast.Attribute) and c.value.func.attr in ('remove', 'discard')
+                and isinstance(c.value.func.value, ast.Name)]
+        rens = [c for o_, c in pv.stmts if isinstance(c, ast.Assign) and isinstance(c.targets[0], ast.Subscript)
+                and pseudo(c.targets[0].value) == fv and isinstance(c.targets[0].slice, ast.Constant) and c.targets[0].slice.value == 'name']
+        if not apps and not rems and not rens:
+            continue
+        ok = len(apps) == 1 and len(rems) == 1 and len(rens) == 1 and pseudo(apps[0].args[0]) == fv
+        if ok:
+            nm = rems[0].args[0]
+            b = _me("_m[%s['name']]" % fv, nm)
+            ok = b is not None and u(rens[0].value) == u(nm)
+            if ok:
+                mapping = b['_m']
+                needed = rems[0].func.value.id
+                # admitted only while the mapped name is still needed (no field twice)
+                gs = [(u(t), pol) for t, pol in pv.guards]
+                ok = ('%s in %s' % (u(nm), needed), True) in gs or ('%s not in %s' % (u(nm), needed), False) in gs
+        run.check(ok, 'CATS', where(repo, fl), func.qualname, 'append(field); field[name] = mapped; needed.remove(mapped) under `mapped in needed`',
+                  'a path of the schema loop does not move exactly the mapped name from the needed names into the target schema: a '
+                  'requested field is declared twice, never, or under another name than the rows carry', path=p.describe())
+    run.floor('CATS', n_paths, 2, 'paths of the schema loop')
+    if needed is None:
+        raise AnalysisError('concatenate: the list of still-needed field names was not found')
+    # initial value of needed, before the loop
+    body = func.node.body
+    top_of = {}
+    for i, st_ in enumerate(body):
+        for x in ast.walk(st_):
+            top_of[id(x)] = i
+    at_loop = top_of[id(fl)]
+    inits = [a for a in own_nodes(func.node) if isinstance(a, ast.Assign) and pseudo(a.targets[0]) == needed]
+    before = [a for a in inits if top_of[id(a)] < at_loop]
+    run.check(len(before) == 1 and keys_of_fields(before[0].value), 'CATS', where(repo, before[0]) if before else func.where, func.qualname,
+              '%s = list(%s.keys())' % (needed, fields_p), 'the needed names do not start as the keys of `fields`')
+    # remaining names added after the selected resources
+    rest = [lp for lp in own_nodes(func.node) if isinstance(lp, ast.For) and pseudo(lp.iter) == needed and top_of[id(lp)] > at_loop
+            and isinstance(lp.target, ast.Name)]
+    ok = len(rest) == 1 and len(rest[0].body) == 1 and isinstance(rest[0].body[0], ast.Expr)
+    if ok:
+        c = rest[0].body[0].value
+        ok = isinstance(c, ast.Call) and isinstance(c.func, ast.Attribute) and c.func.attr == 'append' and is_target_fields(c.func.value) \
+            and len(c.args) == 1
+        if ok:
+            d = c.args[0]
+            nmv = None
+            if isinstance(d, ast.Call) and u(d.func) == 'dict':
+                nmv = [k.value for k in d.keywords if k.arg == 'name']
+            elif isinstance(d, ast.Dict):
+                nmv = [v for k, v in zip(d.keys, d.values) if isinstance(k, ast.Constant) and k.value == 'name']
+            ok = bool(nmv) and pseudo(nmv[0]) == rest[0].target.id
+    run.check(ok, 'CATS', where(repo, rest[0]) if rest else func.where, func.qualname, 'for name in needed: fields.append(dict(name=name, ...))',
+              'a requested field that no selected resource has is not declared in the target schema (its rows still carry it, as null)')
+    # the row builder gets all keys of `fields` and the same mapping
+    cat0 = repo.func('dataflows.processors.concatenate:concatenator')
+    calls = [c for c in own_nodes(func.node) if isinstance(c, ast.Call) and any(t is cat0 for t in ctx.res.resolve_call(c)
+                                                                               if isinstance(t, FuncInfo))] \
+        if False else [c for c in own_nodes(func.node) if isinstance(c, ast.Call) and isinstance(c.func, ast.Name) and c.func.id == cat0.node.name]
+    okc = len(calls) == 1 and len(calls[0].args) == 3
+    if okc:
+        a1 = calls[0].args[1]
+        if isinstance(a1, ast.Name):
+            # the value the name has when the stream loop starts: its last assignment before the call's statement
+            defs = [a for a in own_nodes(func.node) if isinstance(a, ast.Assign) and pseudo(a.targets[0]) == a1.id
+                    and top_of[id(a)] < top_of[id(calls[0])]]
+            defs.sort(key=lambda a: top_of[id(a)])
+            last = defs[-1] if defs else None
+            okc = last is not None and keys_of_fields(last.value) and top_of[id(last)] > top_of[id(rest[0])] if rest else False
+        else:
+            okc = keys_of_fields(a1)
+        okc = okc and mapping is not None and u(calls[0].args[2]) == mapping
+    run.check(okc, 'CATS', where(repo, calls[0]) if calls else func.where, func.qualname,
+              'concatenator(chain, list(%s.keys()), <the mapping the schema was built with>)' % fields_p,
+              'the row builder is not given all keys of `fields` (what is left of the needed names after the schema was built lacks the '
+              'fields the resources have) or not the mapping the schema was built with: rows and target schema disagree')
+
+
 def sources_clause(ctx):
     """sources(): the streams of the sub-flows are appended as they come, in order.  A sub-flow resource is yielded as the very
     object the sub-flow produced, or re-paired with a descriptor picked by its *position*; it is never looked up by its name -
@@ -339,6 +473,7 @@ def check(ctx):
     stream.r26_append_order(ctx)
     duplicate_clauses(ctx)
     concatenate_clauses(ctx)
+    concatenate_target_schema(ctx)
     sources_clause(ctx)
     from rules import independence
     independence.r28_functions(ctx, [('dataflows.processors.concatenate:concatenator', {}),
